@@ -539,7 +539,44 @@ func withAnon(f *ssa.Function) []*ssa.Function {
 // defer spilling (`*slot = v; rundefers; t = *slot; return t`): when a result is a load
 // of a local result slot and the same block stores to that slot before the rundefers,
 // the stored value is returned instead.
+// cutRetCtx: while a Cut evaluates a predicate, the values that the inlined helpers returned on the current path;
+// a function that returns a helper's result (`return c.check(x)`) is then judged by what the helper returned.
+var cutRetCtx *retInfo
+
+func resolveHelperResult(v ssa.Value) ssa.Value {
+	if cutRetCtx == nil {
+		return v
+	}
+	switch x := v.(type) {
+	case *ssa.Call:
+		if rs := cutRetCtx.lookup(x); len(rs) == 1 {
+			return rs[0]
+		}
+	case *ssa.Extract:
+		if cl, ok := x.Tuple.(*ssa.Call); ok {
+			if rs := cutRetCtx.lookup(cl); rs != nil && x.Index < len(rs) {
+				return rs[x.Index]
+			}
+		}
+	}
+	return v
+}
+
 func retResults(r *ssa.Return) []ssa.Value {
+	out := retResults0(r)
+	if cutRetCtx != nil {
+		// `return helper(x)` with several results: the tuple itself is returned
+		if len(r.Results) == 1 {
+			// single value
+		}
+		for i := range out {
+			out[i] = resolveHelperResult(out[i])
+		}
+	}
+	return out
+}
+
+func retResults0(r *ssa.Return) []ssa.Value {
 	out := make([]ssa.Value, len(r.Results))
 	for i, res := range r.Results {
 		out[i] = res
